@@ -22,7 +22,7 @@ Definition inflight (g : G) (ls : nat -> pc) (u : nat) (p : N) : Prop :=
    phase or in the suspension that ended it *)
 Definition needs_wake (g : G) (u : nat) (p : N) : Prop :=
   wake (tasks g u) = Some p /\ (tw_of g u = wA p \/ tw_of g u = wS (p + 1)).
-Definition is_user (b : body) : Prop := match b with UserBody _ => True | HelperBody _ _ => False end.
+Definition is_user (b : body) : Prop := match b with UserBody _ => True | _ => False end.
 Definition W1 (g : G) (ls : nat -> pc) : Prop :=
   forall u p, u < ntasks g -> needs_wake g u p -> inflight g ls u p.
 Definition W5 (g : G) (ls : nat -> pc) : Prop :=
@@ -74,9 +74,6 @@ Proof. cbn. apply upd_same. Qed.
 Lemma tasks_set_task_other g t x y : y <> t -> tasks (set_task g t x) y = tasks g y.
 Proof. intros H. cbn. now apply upd_other. Qed.
 
-Ltac tsimp :=
-  unfold set_word, set_todo, set_reg, push, stage, tw_of in *;
-  cbn [tasks ntasks staged pend log set_task add_log set_pend set_staged new_task] in *.
 
 (* a step that leaves task records of existing tasks alone except for fields that neither
    needs_wake nor helper_for look at *)
@@ -98,6 +95,10 @@ Proof.
   - intros u H. left. auto.
 Qed.
 
+Lemma same_wt_tasks g g' : tasks g' = tasks g -> same_wt g g'.
+Proof. intros E x. rewrite E. tauto. Qed.
+Lemma same_wt_rc_dec g t : same_wt g (rc_dec g t).
+Proof. apply same_wt_tasks. apply rc_dec_view. Qed.
 Lemma same_wt_refl g : same_wt g g.
 Proof. intros x. tauto. Qed.
 Lemma same_wt_trans g1 g2 g3 : same_wt g1 g2 -> same_wt g2 g3 -> same_wt g1 g3.
@@ -129,22 +130,49 @@ Proof.
   apply in_app_or in Hx. destruct Hx as [H|[H|H]]; [right; apply in_or_app; now left | now left | right; apply in_or_app; now right].
 Qed.
 
-(* creation of a new thread object (from a staged description at index i, or directly) *)
-Lemma keep_new g ls a l' b (st' : list body) :
+(* creation of a new thread object (from a staged description at index i, or directly), in a
+   fresh object or in a recycled one *)
+Lemma new_slot_cases g h :
+  (In (new_slot g h) (heap g) /\ ntasks (new_task g (UserBody []) h) = ntasks g) \/
+  (new_slot g h = ntasks g /\ ntasks (new_task g (UserBody []) h) = S (ntasks g)).
+Proof.
+  unfold new_slot, new_task. cbn. destruct (nth_error (heap g) h) eqn:E; [left|right]; split; auto.
+  eapply nth_error_In; eauto.
+Qed.
+Lemma ntasks_new_task g b b' h : ntasks (new_task g b h) = ntasks (new_task g b' h).
+Proof. reflexivity. Qed.
+
+Lemma keep_new g ls a l' b h (st' : list body) :
+  heap_ok g ->
   (forall x, In x (staged g) -> x = b \/ In x st') ->
   (forall u, wit_sub (sub_of (ls a)) u -> wit_sub (sub_of l') u) ->
-  W1 g ls -> W1 (new_task (set_staged g st') b) (upd ls a l').
+  W1 g ls -> W1 (new_task (set_staged g st') b h) (upd ls a l').
 Proof.
-  intros Hst Hw. apply (W1_keep g ls).
-  - intros u p Hu [Hwk Hwd]. cbn in Hu. left.
-    destruct (Nat.eq_dec u (ntasks g)) as [->|Hne].
+  intros HH Hst Hw.
+  set (g0 := set_staged g st').
+  assert (Hslot : (In (new_slot g0 h) (heap g) /\ ntasks (new_task g0 b h) = ntasks g) \/
+                  (new_slot g0 h = ntasks g /\ ntasks (new_task g0 b h) = S (ntasks g))).
+  { rewrite (ntasks_new_task g0 b (UserBody []) h). exact (new_slot_cases g0 h). }
+  assert (Hlt : forall u, u < ntasks (new_task g0 b h) -> u <> new_slot g0 h -> u < ntasks g).
+  { intros u Hu Hne. destruct Hslot as [[_ E]|[E1 E2]]; lia. }
+  assert (Hsl : new_slot g0 h < ntasks (new_task g0 b h)).
+  { destruct Hslot as [[Hin E]|[E1 E2]]; [rewrite E; apply (HH _ Hin) | lia]. }
+  assert (Hnr : forall x, x < ntasks g -> runnable g x -> x <> new_slot g0 h).
+  { intros x Hx Hr ->. destruct Hslot as [[Hin _]|[E1 _]]; [|lia].
+    destruct (HH _ Hin) as [_ Ht]. unfold runnable in Hr. destruct Hr as [Hr|Hr]; congruence. }
+  apply (W1_keep g ls).
+  - intros u p Hu [Hwk Hwd]. left.
+    destruct (Nat.eq_dec u (new_slot g0 h)) as [->|Hne].
     + cbn in Hwk. rewrite upd_same in Hwk. discriminate.
-    + split; [lia|]. unfold needs_wake, tw_of in *. cbn in Hwk, Hwd. rewrite upd_other in Hwk, Hwd by assumption. tauto.
-  - intros u p [Hh|(h & Hh & Hd & Hr)]; left.
+    + split; [now apply Hlt|]. unfold needs_wake, tw_of in *. cbn in Hwk, Hwd.
+      rewrite upd_other in Hwk, Hwd by assumption. tauto.
+  - intros u p [Hh|(x & Hx & Hd & Hr)]; left.
     + destruct (Hst _ Hh) as [E|E]; [|left; exact E].
-      right. exists (ntasks g). cbn. rewrite upd_same. unfold runnable, tw_of. cbn. rewrite upd_same. cbn.
-      repeat split; auto.
-    + right. exists h. unfold runnable, tw_of in *. cbn. rewrite upd_other by lia. repeat split; auto.
+      right. exists (new_slot g0 h). split; [exact Hsl|].
+      cbn. rewrite upd_same. unfold runnable, tw_of. cbn. rewrite upd_same. cbn. auto.
+    + right. exists x. assert (Hne := Hnr x Hx Hr).
+      unfold runnable, tw_of in *. cbn. rewrite upd_other by assumption.
+      split; [|auto]. destruct (nth_error (heap g) h); lia.
   - intros u H. left. auto.
 Qed.
 
@@ -153,17 +181,18 @@ Proof. intros H. apply same_wt_set_task; try reflexivity. intros u prev E. congr
 Lemma same_wt_set_reg g t r : same_wt g (set_reg g t r).
 Proof. apply same_wt_set_task; try reflexivity. cbn. auto. Qed.
 
-Lemma spawn_W1 g ls a l' g0 b (now : bool) :
+Lemma spawn_W1 g ls a l' g0 b (now : bool) h :
+  heap_ok g0 ->
   same_wt g g0 -> ntasks g0 = ntasks g -> staged g0 = staged g ->
   (forall u, wit_sub (sub_of (ls a)) u -> wit_sub (sub_of l') u) ->
-  W1 g ls -> W1 (if now then new_task g0 b else stage g0 b) (upd ls a l').
+  W1 g ls -> W1 (if now then new_task g0 b h else stage g0 b) (upd ls a l').
 Proof.
-  intros Hs Hn Hst Hw HW.
+  intros HH Hs Hn Hst Hw HW.
   assert (HW0 : W1 g0 (upd ls a (ls a))).
   { apply keep_same with (g := g); auto. rewrite Hst. auto. }
   assert (E : forall x, upd (upd ls a (ls a)) a l' x = upd ls a l' x).
   { intros x. unfold upd. destruct (Nat.eqb x a); reflexivity. }
-  assert (HW1 : W1 (if now then new_task g0 b else stage g0 b) (upd (upd ls a (ls a)) a l')).
+  assert (HW1 : W1 (if now then new_task g0 b h else stage g0 b) (upd (upd ls a (ls a)) a l')).
   { destruct now.
     - replace g0 with (set_staged g0 (staged g0)) at 1 by (destruct g0; reflexivity).
       apply keep_new; auto. rewrite upd_same. exact Hw.
@@ -195,22 +224,26 @@ Proof.
       * rewrite Ha, Es. cbn. tauto.
     + apply (keep_same g ls); auto using same_wt_add_log. rewrite Ha, Es. cbn. tauto.
   - (* SLoad *)
-    assert (Hdrop : forall gg, (gg = g \/ exists b, gg = stage g b) ->
+    assert (Hdrop : forall gg, same_wt g gg -> ntasks gg = ntasks g ->
+              (forall b, In b (staged g) -> In b (staged gg)) ->
               (ntasks g <= u0 \/ (forall p, needs_wake gg u0 p -> helper_for gg u0 (wA p))) ->
               W1 gg (upd ls a (with_sub l SNone))).
-    { intros gg Hgg Hd. apply (W1_keep g ls); auto.
-      - intros u p Hu Hn. left. destruct Hgg as [->|[b ->]]; auto.
-      - intros u p Hh. left. destruct Hgg as [->|[b ->]]; [exact Hh|].
-        apply helper_frame with (g := g); [cbn; auto | cbn; lia | cbn; auto | exact Hh].
+    { intros gg Hsw Hn Hst Hd. apply (W1_keep g ls); auto.
+      - intros u p Hu Hnw. left. split; [lia|]. destruct (Hsw u) as (E1 & E2 & _).
+        eapply needs_wake_ext; eauto.
+      - intros u p Hh. left. eapply helper_frame; eauto; [lia|].
+        intros h Hh' Hd' Hr. destruct (Hsw h) as (_ & E2 & E3). split; [now apply E3|].
+        unfold runnable, tw_of in *. now rewrite E2.
       - rewrite Ha, Es. intros u Hu. cbn in Hu. subst u. right.
-        destruct Hd as [Hd|Hd]; [left | right; exact Hd]. destruct Hgg as [->|[b ->]]; exact Hd. }
+        destruct Hd as [Hd|Hd]; [left; lia | right; exact Hd]. }
     destruct (u0 <? ntasks g) eqn:Eu; cbn [fst snd].
-    2:{ apply Nat.ltb_ge in Eu. apply Hdrop; auto. }
+    2:{ apply Nat.ltb_ge in Eu. apply Hdrop; auto using same_wt_refl. }
     destruct (st (tw_of g u0)) eqn:Est; cbn [fst snd].
-    all: try (apply Hdrop; [now left|]; right; intros p [_ [Hw|Hw]]; rewrite Hw in Est; discriminate Est).
+    all: try (apply Hdrop; auto using same_wt_refl; right; intros p [_ [Hw|Hw]]; rewrite Hw in Est; discriminate Est).
     + (* active: stage the helper *)
-      apply Hdrop; [right; eexists; reflexivity|]. right.
-      intros p [_ [Hw|Hw]]; change (tw_of (stage g (HelperBody u0 (tw_of g u0))) u0) with (tw_of g u0) in Hw;
+      apply Hdrop; [apply same_wt_tasks; reflexivity | reflexivity | cbn; auto |]. right.
+      intros p [_ [Hw|Hw]];
+        change (tw_of (stage (rc_inc g u0) (HelperBody u0 (tw_of g u0))) u0) with (tw_of g u0) in Hw;
         [|rewrite Hw in Est; discriminate Est].
       left. cbn [staged stage set_staged]. left. rewrite Hw. reflexivity.
     + (* suspended *) apply (keep_same g ls); auto using same_wt_refl. rewrite Ha, Es, Hso. cbn. auto.
@@ -220,7 +253,7 @@ Proof.
     destruct (word_eqb (tw_of g u0) prev) eqn:Ew.
     2:{ cbn [fst snd]. apply (keep_same g ls); auto using same_wt_refl. rewrite Ha, Es, Hso. cbn. auto. }
     apply word_eqb_true in Ew.
-    set (g1 := add_log (set_word g u0 (w_pending prev)) (EvWord u0 SiteSet prev (w_pending prev))).
+    set (g1 := add_log (set_word g u0 (w_pending prev)) (EvWord (gid g u0) SiteSet prev (w_pending prev))).
     assert (Hgen : forall gg s', same_wt g1 gg -> ntasks gg = ntasks g -> staged gg = staged g ->
                W1 gg (upd ls a (with_sub l s'))).
     { intros gg s' Hsw Hn Hst. apply (W1_keep g ls); auto.
@@ -244,7 +277,7 @@ Proof.
         apply Hgen; auto using same_wt_refl, same_wt_add_log.
     + apply Hgen; auto using same_wt_refl.
   - (* SEnq *)
-    cbn [fst snd]. apply (keep_same g ls); auto using same_wt_push.
+    cbn [fst snd]. apply (keep_same g ls); auto; [apply same_wt_tasks; reflexivity|].
     rewrite Ha, Es. cbn. tauto.
 Qed.
 
@@ -275,11 +308,11 @@ Proof.
 Qed.
 
 Theorem step_W1 o a g ls :
-  SInv g ls -> W5 g ls -> W1 g ls ->
+  SInv g ls -> heap_ok g -> W5 g ls -> W1 g ls ->
   W1 (fst (tstep o a g (ls a))) (upd ls a (snd (tstep o a g (ls a)))).
 Proof.
-  intros HI H5 HW. assert (Hpc := i_pc _ _ _ _ HI a). specialize (H5 a).
-  destruct (ls a) as [|t|t w0|t orig s|t orig ret|t orig ret cur|t|t prev|t|acts s] eqn:Ha; cbn [tstep].
+  intros HI HH H5 HW. assert (Hpc := i_pc _ _ _ _ HI a). specialize (H5 a).
+  destruct (ls a) as [|t|t w0|t orig s|t orig ret|t orig ret cur|t|t prev|t|t|acts s] eqn:Ha; cbn [tstep].
   - (* WTop *)
     destruct (ob o).
     + destruct (nth_error (pend g) (oi o)); cbn [fst snd].
@@ -289,15 +322,18 @@ Proof.
       * apply keep_new; auto.
         -- intros x Hx. eapply In_remove_nth; eauto.
         -- rewrite Ha. cbn. tauto.
-      * apply (keep_same g ls); auto using same_wt_refl; rewrite Ha; cbn; tauto.
+      * destruct (term g); cbn [fst snd];
+          (apply (keep_same g ls); [apply same_wt_tasks; reflexivity | reflexivity | auto | rewrite Ha; cbn; tauto | exact HW]).
   - cbn [fst snd]. apply (keep_same g ls); auto using same_wt_refl. rewrite Ha. cbn. tauto.
   - (* WLoaded *)
     destruct Hpc as [(Ht & Hw & Hp) _]. subst w0. rewrite Hp, word_eqb_refl. cbn [fst snd].
     apply (keep_word g ls) with (t := t); auto.
-    + intros x Hx. cbn. now rewrite upd_other.
-    + intros p [Hwk _]. cbn in Hwk. rewrite upd_same in Hwk. discriminate.
-    + intros u prev Hd Hr. cbn. rewrite upd_same. cbn. split; [exact Hd|].
-      unfold runnable, tw_of. cbn. rewrite upd_same. cbn. now right.
+    + destruct (sref g t); reflexivity.
+    + destruct (sref g t); reflexivity.
+    + intros x Hx. destruct (sref g t); cbn; now rewrite upd_other.
+    + intros p [Hwk _]. destruct (sref g t); cbn in Hwk; rewrite upd_same in Hwk; discriminate.
+    + intros u prev Hd Hr. destruct (sref g t); cbn; rewrite upd_same; cbn; (split; [exact Hd|]);
+        unfold runnable, tw_of; cbn; rewrite upd_same; cbn; now right.
     + rewrite Ha. cbn. tauto.
   - (* WRun *)
     destruct s as [|u|u|u prev|u].
@@ -305,9 +341,11 @@ Proof.
            assert (Hs := sub_step_W1 gg ls a _ HI Ha I HW); cbn [sub_of with_sub] in Hs;
            destruct (sub_step gg s) as [g' s']; exact Hs end.
     destruct Hpc as [(Ht & Hw & Hact) _].
-    unfold run_act. destruct (todo (tasks g t)) as [[|ac r]|u prev] eqn:Etd.
+    unfold run_act. destruct (todo (tasks g t)) as [[|ac r]|u prev|u] eqn:Etd.
     + cbn [fst snd]. apply (keep_same g ls); auto using same_wt_refl. rewrite Ha. cbn. tauto.
     + assert (Hsw : same_wt g (set_todo g t (UserBody r))) by (eapply same_wt_set_todo_user; eauto).
+      assert (Hsw' : same_wt g (self_ref (set_todo g t (UserBody r)) t)).
+      { eapply same_wt_trans; [exact Hsw | apply same_wt_tasks; reflexivity]. }
       destruct ac as [| | | |b now|u]; cbn [fst snd].
       * apply (keep_same g ls); auto. rewrite Ha. cbn. tauto.
       * apply (keep_same g ls); auto. rewrite Ha. cbn. tauto.
@@ -315,17 +353,19 @@ Proof.
       * apply (keep_same g ls); auto.
         -- eapply same_wt_trans; [exact Hsw | apply same_wt_set_reg].
         -- rewrite Ha. cbn. tauto.
-      * apply spawn_W1 with (g := g); auto. rewrite Ha. cbn. tauto.
+      * apply spawn_W1 with (g := g); auto.
+        -- intros x Hx. rewrite tw_of_set_todo. apply (HH x Hx).
+        -- rewrite Ha. cbn. tauto.
       * apply (keep_same g ls); auto. rewrite Ha. cbn. tauto.
     + (* helper: set_active_state *)
-      set (g1 := set_todo g t (UserBody [])).
+      set (g1 := set_todo g t (HelperRun u)).
       assert (Hgen : forall gg s', same_wt g1 gg -> ntasks gg = ntasks g -> staged gg = staged g ->
                  (s' = SLoad u \/ (s' = SNone /\ forall p, prev = wA p -> ~ needs_wake g u p)) ->
                  W1 gg (upd ls a (WRun t orig s'))).
       { intros gg s' Hsw Hn Hst Hs'. apply (W1_keep g ls); auto.
         - intros x p Hx Hnd. left. rewrite Hn in Hx. split; [exact Hx|].
           destruct (Hsw x) as (E1 & E2 & _). unfold needs_wake, tw_of in *. rewrite E1, E2 in Hnd.
-          unfold g1 in Hnd. destruct (set_todo_wt g t (UserBody []) x) as [F1 F2]. rewrite F1, F2 in Hnd. exact Hnd.
+          unfold g1 in Hnd. destruct (set_todo_wt g t (HelperRun u) x) as [F1 F2]. rewrite F1, F2 in Hnd. exact Hnd.
         - intros x p [Hf|(h & Hh & Hd & Hr)].
           + left. left. rewrite Hst. exact Hf.
           + destruct (Nat.eq_dec h t) as [->|Hne].
@@ -333,7 +373,7 @@ Proof.
               destruct Hs' as [->|[-> Hs']]; [right; left; reflexivity|].
               right. right. intros Hnd. apply (Hs' p eq_refl).
               destruct (Hsw u) as (E1 & E2 & _). unfold needs_wake, tw_of in *. rewrite E1, E2 in Hnd.
-              unfold g1 in Hnd. destruct (set_todo_wt g t (UserBody []) u) as [F1 F2]. rewrite F1, F2 in Hnd. exact Hnd.
+              unfold g1 in Hnd. destruct (set_todo_wt g t (HelperRun u) u) as [F1 F2]. rewrite F1, F2 in Hnd. exact Hnd.
             * left. right. exists h. destruct (Hsw h) as (_ & E2 & E3). split; [lia|]. split.
               -- apply E3. unfold g1. cbn. rewrite upd_other by assumption. exact Hd.
               -- unfold runnable, tw_of in *. rewrite E2. unfold g1. cbn. rewrite upd_other by assumption. exact Hr.
@@ -344,18 +384,25 @@ Proof.
         -- rewrite N.eqb_refl in Eab. discriminate.
         -- discriminate.
       * apply Hgen; auto using same_wt_refl.
+    + (* helper: release of the bound id *)
+      cbn [fst snd]. apply (keep_same g ls); auto.
+      * eapply same_wt_trans; [|apply same_wt_rc_dec].
+        apply same_wt_set_task; try reflexivity. intros u' prev' E. congruence.
+      * rewrite ntasks_rc_dec. reflexivity.
+      * destruct (rc_dec_view (set_todo g t (UserBody [])) u) as (_ & _ & _ & -> & _). auto.
+      * rewrite Ha. cbn. tauto.
   - cbn [fst snd]. apply (keep_same g ls); auto using same_wt_refl. rewrite Ha. cbn. tauto.
   - (* WStoreC *)
     destruct Hpc as [(Ht & Hw & Hact & Hr & Hcur) _]. subst cur. subst orig.
-    rewrite word_eqb_refl. cbn [fst snd].
-    match goal with |- W1 ?gg (upd ls a ?ll) => apply (keep_word g ls a ll gg t) end; auto.
-    + intros x Hx. cbn. now rewrite upd_other.
-    + intros p [Hwk Hwd]. unfold needs_wake, tw_of in *. cbn in Hwk, Hwd. rewrite upd_same in Hwk, Hwd. cbn in Hwk, Hwd.
-      split; [exact Hwk|]. left. destruct Hwd as [Hwd|Hwd]; inversion Hwd as [[Hs Htg]].
-      * destruct Hr as [Hr|[Hr|[Hr|Hr]]]; congruence.
-      * assert (tag (tw (tasks g t)) = p) by lia. destruct (tw (tasks g t)) as [s0 t0]; cbn in *. subst. reflexivity.
-    + intros u prev Hd _. exfalso. cbn in H5. rewrite Hd in H5. exact H5.
-    + rewrite Ha. cbn. destruct ret; cbn; tauto.
+    rewrite word_eqb_refl. cbn [fst snd]. cbv zeta. destruct (sst_beq ret st_terminated).
+    all: match goal with |- W1 ?gg (upd _ _ ?ll) => apply (keep_word g ls a ll gg t) end; auto.
+    all: try (intros x Hx; cbn; now rewrite upd_other).
+    all: try (intros u prev Hd _; exfalso; cbn in H5; rewrite Hd in H5; exact H5).
+    all: try (rewrite Ha; cbn; destruct ret; cbn; tauto).
+    all: intros p [Hwk Hwd]; unfold needs_wake, tw_of in *; cbn in Hwk, Hwd; rewrite upd_same in Hwk, Hwd; cbn in Hwk, Hwd;
+      (split; [exact Hwk|]); left; destruct Hwd as [Hwd|Hwd]; inversion Hwd as [[Hs Htg]];
+      [ destruct Hr as [Hr|[Hr|[Hr|Hr]]]; congruence
+      | assert (tag (tw (tasks g t)) = p) by lia; destruct (tw (tasks g t)) as [s0 t0]; cbn in *; subst; reflexivity ].
   - cbn [fst snd]. apply (keep_same g ls); auto using same_wt_refl. rewrite Ha. cbn. tauto.
   - (* WBoostC *)
     destruct Hpc as [(Ht & Hb) _].
@@ -369,6 +416,11 @@ Proof.
       * rewrite Ha. cbn. tauto.
     + apply (keep_same g ls); auto using same_wt_refl. rewrite Ha. cbn. tauto.
   - cbn [fst snd]. apply (keep_same g ls); auto using same_wt_push. rewrite Ha. cbn. tauto.
+  - (* WRelease *)
+    cbn [fst snd]. apply (keep_same g ls); auto using same_wt_rc_dec.
+    + apply ntasks_rc_dec.
+    + destruct (rc_dec_view g t) as (_ & _ & _ & -> & _). auto.
+    + rewrite Ha. cbn. tauto.
   - (* XRun *)
     destruct s as [|u|u|u prev|u].
     2-5: match goal with |- context [sub_step ?gg ?s] =>
@@ -384,28 +436,37 @@ Qed.
    set_active_state still pending) *)
 Definition ustable (g g' : G) : Prop :=
   ntasks g <= ntasks g' /\
-  forall t, t < ntasks g -> is_user (todo (tasks g t)) -> is_user (todo (tasks g' t)).
+  forall t, t < ntasks g -> ~ In t (heap g) -> is_user (todo (tasks g t)) -> is_user (todo (tasks g' t)).
 Lemma ustable_refl g : ustable g g.
 Proof. split; auto. Qed.
-Lemma ustable_trans g1 g2 g3 : ustable g1 g2 -> ustable g2 g3 -> ustable g1 g3.
-Proof. intros [A1 A2] [B1 B2]. split; [lia|]. intros t Ht Hu. apply B2; [lia|]. now apply A2. Qed.
+Lemma ustable_then_same g g1 g2 :
+  ustable g g1 -> tasks g2 = tasks g1 -> ntasks g2 = ntasks g1 -> ustable g g2.
+Proof. intros [A1 A2] E1 E2. split; [lia|]. intros t Ht Hh Hu. rewrite E1. now apply A2. Qed.
+Lemma ustable_then_new g g1 b h :
+  ustable g g1 -> heap g1 = heap g -> ntasks g1 = ntasks g -> ustable g (new_task g1 b h).
+Proof.
+  intros [A1 A2] Eh En. split.
+  - unfold new_task; cbn. destruct (nth_error (heap g1) h); lia.
+  - intros t Ht Hh Hu. assert (Hne : t <> new_slot g1 h).
+    { unfold new_slot. destruct (nth_error (heap g1) h) eqn:E; [|lia].
+      intros ->. apply Hh. rewrite <- Eh. eapply nth_error_In; eauto. }
+    unfold new_task; cbn. fold (new_slot g1 h). rewrite upd_other by assumption. now apply A2.
+Qed.
 Lemma ustable_set_task g t k :
   (is_user (todo k) \/ todo k = todo (tasks g t)) -> ustable g (set_task g t k).
 Proof.
-  intros H. split; [cbn; lia|]. intros x Hx Hu. cbn. unfold upd.
+  intros H. split; [cbn; lia|]. intros x Hx _ Hu. cbn. unfold upd.
   destruct (Nat.eqb x t) eqn:E; [|exact Hu]. apply Nat.eqb_eq in E. subst.
   destruct H as [H|H]; [exact H | now rewrite H].
 Qed.
-Lemma ustable_new g b : ustable g (new_task g b).
-Proof. split; [cbn; lia|]. intros x Hx Hu. cbn. rewrite upd_other by lia. exact Hu. Qed.
 Lemma ustable_same_tasks g g' : tasks g' = tasks g -> ntasks g' = ntasks g -> ustable g g'.
-Proof. intros E1 E2. split; [lia|]. intros t Ht Hu. now rewrite E1. Qed.
+Proof. intros E1 E2. split; [lia|]. intros t Ht _ Hu. now rewrite E1. Qed.
 
 Lemma ustable_by g g' :
   ntasks g <= ntasks g' ->
   (forall x, todo (tasks g' x) = todo (tasks g x) \/ is_user (todo (tasks g' x))) -> ustable g g'.
 Proof.
-  intros Hn H. split; [exact Hn|]. intros t Ht Hu. destruct (H t) as [E|E]; [now rewrite E | exact E].
+  intros Hn H. split; [exact Hn|]. intros t Ht _ Hu. destruct (H t) as [E|E]; [now rewrite E | exact E].
 Qed.
 Ltac ust := apply ustable_by; [cbn; lia | intros x; cbn; unfold upd;
   repeat match goal with |- context [Nat.eqb x ?t] =>
@@ -421,138 +482,104 @@ Proof.
   - destruct (u <? ntasks g); [|apply ustable_refl]. destruct (st (tw_of g u)); cbn [fst];
       try apply ustable_refl; now apply ustable_same_tasks.
   - destruct (word_eqb (tw_of g u) prev); [|apply ustable_refl].
-    assert (H : ustable g (add_log (set_word g u (w_pending prev)) (EvWord u SiteSet prev (w_pending prev)))) by ust.
+    assert (H : ustable g (add_log (set_word g u (w_pending prev)) (EvWord (gid g u) SiteSet prev (w_pending prev)))) by ust.
     destruct (sst_beq (st prev) st_suspended); cbn [fst]; [|exact H].
     destruct (match wake (tasks g u) with Some p => negb (N.eqb (p + 1) (tag prev)) | None => true end); [|exact H].
-    eapply ustable_trans; [exact H | now apply ustable_same_tasks].
+    eapply ustable_then_same; [exact H | reflexivity | reflexivity].
   - now apply ustable_same_tasks.
 Qed.
 
-Lemma ustable_spawn g b (now : bool) : ustable g (if now then new_task g b else stage g b).
-Proof. destruct now; [apply ustable_new | now apply ustable_same_tasks]. Qed.
+Lemma ustable_spawn g g1 b (now : bool) h :
+  ustable g g1 -> heap g1 = heap g -> ntasks g1 = ntasks g ->
+  ustable g (if now then new_task g1 b h else stage g1 b).
+Proof.
+  intros H Eh En. destruct now; [now apply ustable_then_new|].
+  eapply ustable_then_same; [exact H | reflexivity | reflexivity].
+Qed.
 
 Lemma tstep_ustable o a g l : ustable g (fst (tstep o a g l)).
 Proof.
-  destruct l as [|t|t w0|t orig s|t orig ret|t orig ret cur|t|t prev|t|acts s]; cbn [tstep].
+  destruct l as [|t|t w0|t orig s|t orig ret|t orig ret cur|t|t prev|t|t|acts s]; cbn [tstep].
   - destruct (ob o).
     + destruct (nth_error (pend g) (oi o)); cbn [fst]; [now apply ustable_same_tasks | apply ustable_refl].
-    + destruct (nth_error (staged g) (oi o)); cbn [fst]; [|apply ustable_refl].
-      eapply ustable_trans; [|apply ustable_new]. now apply ustable_same_tasks.
+    + destruct (nth_error (staged g) (oi o)); cbn [fst].
+      * apply ustable_then_new; [now apply ustable_same_tasks | reflexivity | reflexivity].
+      * destruct (term g); cbn [fst]; [apply ustable_refl | now apply ustable_same_tasks].
   - apply ustable_refl.
   - destruct (st w0); try apply ustable_refl.
     + now apply ustable_same_tasks.
     + destruct (word_eqb (tw_of g t) w0); [|apply ustable_refl]. cbn [fst].
-      ust.
+      destruct (sref g t); ust.
   - destruct s.
     2-5: match goal with |- context [sub_step ?gg ?s] =>
            assert (H := sub_step_ustable gg s); destruct (sub_step gg s); exact H end.
-    unfold run_act. destruct (todo (tasks g t)) as [[|ac r]|u prev]; [apply ustable_refl| |].
+    unfold run_act. destruct (todo (tasks g t)) as [[|ac r]|u prev|u] eqn:Etd; [apply ustable_refl| | |].
     + assert (H1 : ustable g (set_todo g t (UserBody r))) by (apply ustable_set_task; left; exact I).
       destruct ac; cbn [fst]; try exact H1.
       * ust.
-      * eapply ustable_trans; [exact H1 | apply ustable_spawn].
-    + assert (H1 : ustable g (set_todo g t (UserBody []))) by (apply ustable_set_task; left; exact I).
+      * apply ustable_spawn; [exact H1 | reflexivity | reflexivity].
+    + assert (H1 : ustable g (set_todo g t (HelperRun u))).
+      { split; [cbn; lia|]. intros x Hx _ Hu. cbn. unfold upd.
+        destruct (Nat.eqb x t) eqn:E; [|exact Hu]. apply Nat.eqb_eq in E. subst.
+        rewrite Etd in Hu. contradiction. }
       destruct (sst_beq (st (tw_of g u)) (st prev) && negb (word_eqb (tw_of g u) prev)); cbn [fst]; [|exact H1].
-      eapply ustable_trans; [exact H1 | now apply ustable_same_tasks].
+      eapply ustable_then_same; [exact H1 | reflexivity | reflexivity].
+    + assert (H1 : ustable g (set_todo g t (UserBody []))) by (apply ustable_set_task; left; exact I).
+      cbn [fst]. eapply ustable_then_same; [exact H1 | apply rc_dec_view | apply rc_dec_view].
   - apply ustable_refl.
-  - destruct (word_eqb (tw_of g t) orig); [|apply ustable_refl]. cbn [fst].
-    ust.
+  - destruct (word_eqb (tw_of g t) orig); [|apply ustable_refl]. cbn [fst]. cbv zeta.
+    destruct (sst_beq ret st_terminated); ust.
   - apply ustable_refl.
   - destruct (word_eqb (tw_of g t) prev); [|apply ustable_refl]. cbn [fst].
     ust.
   - now apply ustable_same_tasks.
+  - apply ustable_same_tasks; apply rc_dec_view.
   - destruct s.
     2-5: match goal with |- context [sub_step ?gg ?s] =>
            assert (H := sub_step_ustable gg s); destruct (sub_step gg s); exact H end.
     destruct acts as [|ac r]; [apply ustable_refl|]. destruct ac; cbn [fst]; try apply ustable_refl.
-    apply ustable_spawn.
+    apply ustable_spawn; [apply ustable_refl | reflexivity | reflexivity].
 Qed.
 
 Theorem step_W5 o a g ls :
-  SInv g ls -> W5 g ls ->
+  SInv g ls -> heap_ok g -> W5 g ls ->
   W5 (fst (tstep o a g (ls a))) (upd ls a (snd (tstep o a g (ls a)))).
 Proof.
-  intros HI H5 b. destruct (Nat.eq_dec b a) as [->|Hne].
+  intros HI HH H5 b. destruct (Nat.eq_dec b a) as [->|Hne].
   - rewrite upd_same. specialize (H5 a). assert (Hpc := i_pc _ _ _ _ HI a).
-    destruct (ls a) as [|t|t w0|t orig s|t orig ret|t orig ret cur|t|t prev|t|acts s] eqn:Ha; cbn [tstep].
-    + destruct (ob o); [destruct (nth_error (pend g) (oi o)) | destruct (nth_error (staged g) (oi o))]; exact I.
+    destruct (ls a) as [|t|t w0|t orig s|t orig ret|t orig ret cur|t|t prev|t|t|acts s] eqn:Ha; cbn [tstep].
+    + destruct (ob o); [destruct (nth_error (pend g) (oi o)) | destruct (nth_error (staged g) (oi o)); [|destruct (term g)]]; exact I.
     + exact I.
     + destruct (st w0); try exact I. destruct (word_eqb (tw_of g t) w0); exact I.
     + destruct s.
       2-5: match goal with |- context [sub_step ?gg ?s] => destruct (sub_step gg s); exact I end.
-      unfold run_act. destruct (todo (tasks g t)) as [[|ac r]|u prev] eqn:Etd; cbn [fst snd].
+      unfold run_act. destruct (todo (tasks g t)) as [[|ac r]|u prev|u] eqn:Etd; cbn [fst snd].
       * rewrite Etd. exact I.
       * destruct ac; cbn [fst snd]; try exact I; cbn; rewrite upd_same; exact I.
       * destruct (sst_beq (st (tw_of g u)) (st prev) && negb (word_eqb (tw_of g u) prev)); exact I.
+      * exact I.
     + cbn [fst snd]. exact H5.
     + destruct (word_eqb (tw_of g t) orig); [|exact I]. destruct ret; exact I.
     + exact I.
     + destruct (word_eqb (tw_of g t) prev); exact I.
+    + exact I.
     + exact I.
     + destruct s.
       2-5: match goal with |- context [sub_step ?gg ?s] => destruct (sub_step gg s); exact I end.
       destruct acts as [|ac r]; [exact I|]. destruct ac; exact I.
   - rewrite upd_other by assumption. specialize (H5 b). assert (Hpc := i_pc _ _ _ _ HI b).
     destruct (tstep_ustable o a g (ls a)) as [_ Hst].
-    destruct (ls b); try exact I; destruct Hpc as [Hm _]; cbn in Hm; apply Hst; tauto.
+    assert (Hnh : forall t, st (tw_of g t) = st_active -> ~ In t (heap g)).
+    { intros t Hact Hin. destruct (HH t Hin) as [_ Ht]. congruence. }
+    destruct (ls b); try exact I; destruct Hpc as [Hm _]; cbn in Hm; apply Hst; try tauto;
+      apply Hnh; destruct Hm as (_ & <- & Hact & _); exact Hact.
 Qed.
 
 (* ------------------------------------------------------------------ reachable states, theorems *)
-Definition C2Inv (g : G) (ls : nat -> pc) : Prop := SInv g ls /\ WInv g ls.
-
-Theorem C2Inv_reach sched ext : C2Inv (fst (sched_run sched ext)) (snd (sched_run sched ext)).
-Proof.
-  unfold sched_run. apply (run_inv _ _ _ tstep C2Inv).
-  - intros o t g ls [H1 [H2 H3]]. split; [now apply step_SInv|]. split; [now apply step_W1 | now apply step_W5].
-  - split; [apply SInv_init|]. split.
-    + intros u p Hu. cbn in Hu. lia.
-    + intros a. cbn. unfold init_ls. destruct (ext a) eqn:E; cbn; rewrite ?E; exact I.
-Qed.
-
-(* no lost wake-up: in a stuck configuration (nothing can move; the pool has a worker) no task
-   is suspended whose wake-up was issued for the phase in which it registered — wherever the
-   waker found it: still active ("unlocked but word still active") or already suspended *)
-Theorem no_lost_wakeup sched ext w :
-  ext w = None ->
-  let c := sched_run sched ext in
-  stuck c ->
-  forall u p, u < ntasks (fst c) -> wake (tasks (fst c) u) = Some p ->
-    tw_of (fst c) u <> wS (p + 1) /\ tw_of (fst c) u <> wA p.
-Proof.
-  intros Hw c Hst u p Hu Hwk.
-  destruct (C2Inv_reach sched ext) as [HI [HW _]]. fold c in HI, HW.
-  destruct (sched_no_drop sched ext w Hw Hst) as (Hp & Hs & Hall). fold c in Hp, Hs, Hall.
-  assert (Hpcs := stuck_pcs (fst c) (snd c)). rewrite <- surjective_pairing in Hpcs. specialize (Hpcs Hst).
-  assert (Hno : ~ needs_wake (fst c) u p).
-  { intros Hn. destruct (HW u p Hu Hn) as [[a Ha]|[Hh|(h & Hh & Hd & Hr)]].
-    - destruct (Hpcs a) as [E|E]; rewrite E in Ha; exact Ha.
-    - rewrite Hs in Hh. exact Hh.
-    - destruct (Hall h Hh) as [E|E], Hr as [Hr|Hr]; congruence. }
-  split; intros E; apply Hno; split; auto.
-Qed.
-
-(* a wake-up produces at most one queue entry for its target: the agent that won the
-   suspended->pending CAS holds the only handle until it has pushed it *)
-Theorem wakeup_enqueues_once sched ext a u :
-  let c := sched_run sched ext in
-  enq_of (snd c a) = Some u ->
-  ~ In u (pend (fst c)) /\ (forall b, holds (snd c b) u -> b = a) /\ NoDup (pend (fst c)) /\
-  st (tw_of (fst c) u) = st_pending.
-Proof.
-  intros c He. assert (HI := SInv_reach sched ext). fold c in HI.
-  assert (Hh : holds (snd c a) u) by (right; exact He).
-  repeat split.
-  - eapply (i_excl _ _ _ _ HI); eauto.
-  - intros b Hb. eapply (i_uniq _ _ _ _ HI); eauto.
-  - apply (i_nodup _ _ _ _ HI).
-  - assert (Hpc := i_pc _ _ _ _ HI a). destruct Hpc as [_ Hs]. unfold enq_of in He.
-    destruct (sub_of (snd c a)); try discriminate. inversion He; subst. cbn in Hs. tauto.
-Qed.
-
 (* ------------------------------------------------------------------ the contract is weaker than
    "a suspension ends only by a wake-up issued for it" *)
-Definition oP : oracle := {| oi := 0; ob := true |}.
-Definition oC : oracle := {| oi := 0; ob := false |}.
+Definition oP : oracle := {| oi := 0; ob := true; oh := 0 |}.
+Definition oC : oracle := {| oi := 0; ob := false; oh := 0 |}.
 (* thread 0: an OS thread that submits T = [Suspend] (run-now) and then resumes it; 1, 2: workers *)
 Definition wit1_ext : nat -> option (list act) :=
   fun i => match i with 0 => Some [Spawn [Suspend] true; Resume 0] | _ => None end.
